@@ -78,4 +78,35 @@ theorem lookup_assign (m : List Item) (k v k' : Nat) :
           simp [this]
         · simp [hk]
 
+theorem ordEqualRange_spec (xs : List Item) (hs : StrictSorted xs) (k : Nat) :
+    ordEqualRange false xs k = (lb k xs, ub k xs) := by
+  have hsr := strict_sorted xs hs
+  have h1 := lb_le_ub k xs
+  have h2 := ub_le_lb_succ k xs hs
+  have h3 := ub_le_length k xs
+  have hf := found_iff xs hsr k
+  unfold ordEqualRange
+  simp only [Bool.false_eq_true, if_false]
+  by_cases hc : lb k xs = xs.length ∨ k < keyAt xs (lb k xs)
+  · rw [if_pos hc]
+    have : ¬ lb k xs < ub k xs := by
+      intro hlt
+      have := hf.mpr hlt
+      rcases hc with hc | hc
+      · omega
+      · exact this.2 hc
+    congr 1; omega
+  · rw [if_neg hc]
+    have hlt : lb k xs < ub k xs := hf.mp ⟨by
+      have := lb_le_length k xs
+      apply Decidable.byContradiction; intro hn; exact hc (Or.inl (by omega)), fun hk => hc (Or.inr hk)⟩
+    congr 1; omega
+
+theorem insertNode_unique (xs : List Item) (hs : StrictSorted xs) (x : Item) :
+    insertNode false xs (some x) =
+      (if lb x.1 xs < ub x.1 xs then (xs, lb x.1 xs, false, some x) else (insertAt xs (lb x.1 xs) x, lb x.1 xs, true, none)) := by
+  unfold insertNode treeInsert
+  simp only [treeFind_unique xs hs x.1]
+  split <;> simp
+
 end Momo.StdWrap
